@@ -2,7 +2,8 @@ import Bng.Map
 /-
   Model of the termination path of pkg/subscriber/manager.go (Manager.CreateSession / AssignAddress /
   TerminateSession) against an address allocator.  TerminateSession releases the manager lock between
-  marking the session Terminating and releasing its addresses, so it is split into `begin` (check + mark),
+  marking the session as terminating (a flag of its own since fix ac0cfa4; before, Session.State, which
+  five other calls overwrite) and releasing its addresses, so it is split into `begin` (check + mark),
   the allocator call, and `finish` (drop indexes, delete, emit event): every interleaving of callers at
   those points is an ordinary history of `tbegin`/`tresume` operations.
   Sessions are identified by harness names (standing for the UUIDs).  Core Lean only.
@@ -55,7 +56,7 @@ def assign (s : M) (n : Nat) : M × Res :=
     | none => (s, .exhausted)
     | some a =>
       ({ s with owner := AMap.insert s.owner a n, allocs := bump s.allocs a,
-                sessions := AMap.insert s.sessions n { x with ip := some a, terminating := false },
+                sessions := AMap.insert s.sessions n { x with ip := some a },
                 byIp := AMap.insert s.byIp a n }, .ok)
 
 /-- first critical section of TerminateSession: find, refuse if already terminating, mark -/
@@ -84,6 +85,7 @@ inductive Op where
   | term (n : Nat)                 -- a whole TerminateSession call
   | tbegin (tag n : Nat)           -- a TerminateSession call run up to the allocator call
   | tresume (tag : Nat)            -- the parked call runs to completion
+  | touch (n : Nat)                -- ActivateSession / SetWalledGarden / ClearWalledGarden: they write Session.State only
   deriving Repr, DecidableEq
 
 def step (s : M) : Op → M × Res
@@ -106,6 +108,9 @@ def step (s : M) : Op → M × Res
       match x.ip with
       | some a => ({ s1 with calls := AMap.insert s1.calls tag (n, a) }, .parked)
       | none => (tFinish s1 n x, .ok)
+  | .touch n =>
+    -- the termination mark is a flag of its own (fix ac0cfa4): nothing these calls write is part of this model
+    if (AMap.lookup s.sessions n).isSome then (s, .ok) else (s, .notfound)
   | .tresume tag =>
     match AMap.lookup s.calls tag with
     | none => (s, .badop)
@@ -128,8 +133,8 @@ def hasAddr (s : M) (n : Nat) : Bool :=
 
 /-- Histories in which AssignAddress is only called on a session that holds no address yet.  Outside
     this set lie the two recorded findings: KF-submgr-reassign-leak (the first address is never released)
-    and KF-submgr-assign-race (an AssignAddress while the session's termination is in progress clears the
-    Terminating mark and strands the new address). -/
+    and KF-submgr-assign-race (an AssignAddress while the session's termination is in progress strands the
+    new address; since fix ac0cfa4 it no longer re-enables a second termination). -/
 def Valid : M → List Op → Prop
   | _, [] => True
   | s, op :: ops =>
